@@ -52,6 +52,16 @@ def gen_cases(ctx):
             for rk, rd in [(1, 0), (1, 1), (1, 28), (1, 29), (1, 30), (1, 31), (1, 32), (1, 33), (2, 0), (3, 0), (4, 0), (0, 0)]:
                 cases.append(("roll", y, m, rk, rd))
         cases.append(("leap", y))
+    # EVERY February 1970-2200 (the month whose length depends on the full leap rule, century exceptions included)
+    for y in range(1970, 2201):
+        if y in years:
+            continue
+        cases.append(("eom", y, 2))
+        for rk, rd in [(1, 28), (1, 29), (1, 30), (1, 31), (2, 0), (0, 0)]:
+            cases.append(("roll", y, 2, rk, rd))
+        cases.append(("leap", y))
+        cases.append(("iseom", dn(y, 2, 28)))
+        cases.append(("iseom", dn(y, 3, 1) - 1))
     for y in [1600, 1700, 1800, 1900, 1904, 2300, 2400, -4, 0, 4, 100]:
         cases.append(("leap", y))
     # is_imm / is_eom on days around the 15th..21st and month ends
